@@ -535,6 +535,56 @@ pub fn run(ctx: &Ctx) -> Report {
         st = st.merge(st6);
     }
 
+    // (7) the order of the names: two or three signed headers whose names share a prefix and part ways at any pair of
+    //     the characters a header name may contain (the canonical order is the byte order of the lower-case names;
+    //     '_', '^', '`', '|', '~' sort after the upper-case letters and around the lower-case ones)
+    {
+        let chars: Vec<char> = "!#$%&'*+-.^_`|~059amz".chars().collect();
+        let nc = chars.len() as u64;
+        let n7 = nc * nc * 3 * 2 * 2;
+        let base7 = n_bases * 1000 + 300_000;
+        let st7 = par_sweep(n7, |i, st| {
+            let mut x = i;
+            let carrier = if x % 2 == 0 { Carrier::Header } else { Carrier::Query };
+            x /= 2;
+            let upper = x % 2 == 1; // names sent in upper case
+            x /= 2;
+            let shape = x % 3;
+            x /= 3;
+            let (c1, c2) = (chars[(x % nc) as usize], chars[(x / nc) as usize]);
+            let names: Vec<String> = match shape {
+                0 => vec![format!("x-n{}", c1), format!("x-n{}q", c2)],
+                1 => vec![format!("x-n{}x", c1), format!("x-n{}x", c2), "x-n".to_string()],
+                _ => vec![format!("{}n", c1), format!("{}n", c2), format!("x{}", c1)],
+            };
+            let mut plan = e2e::base_plan(carrier);
+            let mut seen: Vec<String> = Vec::new();
+            for (k, n) in names.iter().enumerate() {
+                if seen.contains(n) {
+                    continue;
+                }
+                seen.push(n.clone());
+                let sent = if upper { n.to_ascii_uppercase() } else { n.clone() };
+                plan.headers.push((sent, format!("v{}", k).into_bytes()));
+                plan.signed.push(n.clone());
+            }
+            let built = build(&plan);
+            let c = Case { wire: WireReq::from_wire(&built.wire), cfg: cfg.clone(), prov: ProvSpec::standard() };
+            let before = st.violations.len();
+            let j = e2e::judge_into(base7 + i, &c, st);
+            if st.violations.len() > before {
+                if let Some(v) = st.violations.last_mut() {
+                    v.what = format!("name-order({:?}):{}", seen, v.what);
+                }
+            }
+            if !j.unspecified && !j.reference.accepted() {
+                machinery_error(&format!("C11 name-order case {:?}: reference refuses its own request: {:?}", seen, j.reference.error));
+            }
+            st.nontrivial(&(&seen, upper, carrier, "name-order"));
+        });
+        st = st.merge(st7);
+    }
+
     // (3b) the same differential on refused bases
     let refused = refused_bases();
     let n_ref = refused.len() as u64;
@@ -571,7 +621,7 @@ pub fn run(ctx: &Ctx) -> Report {
     Report {
         stats: st,
         rule: format!(
-            "{} base requests: x-a with every list of 0..2 values over 14 values (spaces outside/inside, empty, comma, 0xE9, quoted, inner/outer/double tabs, values beginning/ending in bytes 0x85 / 0xA0) x x-b (none, one, two values) x content-type (absent/present) x every signed subset of {{x-a, x-b, content-type, x-amz-date}} x 3 arrival orders x 3 name-case styles, header carrier and (1 in 5) query carrier; (1) accepted, canonical request bytes equal to the reference's; (2) on every {} base, every single edit of a signed header (insertion of 4 bytes at every position, deletion and 3 substitutions at every position, value added/removed, two values swapped, value moved to another signed name) with the old signature: Ok iff the reference header block is unchanged; (3) every insertion position of an unsigned header, removal/modification/extra value of every unsigned one, every rotation of the header groups: identical outcome; the same insertions on {} refused bases; (4) a thrice-repeated signed header among 12..100 header lines in 4 arrangements: accepted, refused once two signed values are swapped, unaffected by removing unsigned lines (each 8 times); (5) 8 Host spellings (ports 443/80/8443, upper case, trailing dot, IPv6, doubled port) signed literally on both carriers, each with 36 unsigned headers (well-known hop-by-hop / proxy / content headers and near-miss names of the headers the library consults) added, and every signature presented with every other Host value; (6) a form POST signing 14 entity / framing / payload-digest / list-valued headers (Cookie, Accept and Cache-Control with two values each) (Content-Length, Content-Type, Content-MD5, X-Amz-Content-Sha256, Transfer-Encoding, Expect, Range, ...) under {{default, S3, fold, S3+fold}} on both carriers: accepted as signed, and judged against the reference for each of 8 replacement values, an added second value and the removal of every one of them. states = distinct reference canonical requests",
+            "{} base requests: x-a with every list of 0..2 values over 14 values (spaces outside/inside, empty, comma, 0xE9, quoted, inner/outer/double tabs, values beginning/ending in bytes 0x85 / 0xA0) x x-b (none, one, two values) x content-type (absent/present) x every signed subset of {{x-a, x-b, content-type, x-amz-date}} x 3 arrival orders x 3 name-case styles, header carrier and (1 in 5) query carrier; (1) accepted, canonical request bytes equal to the reference's; (2) on every {} base, every single edit of a signed header (insertion of 4 bytes at every position, deletion and 3 substitutions at every position, value added/removed, two values swapped, value moved to another signed name) with the old signature: Ok iff the reference header block is unchanged; (3) every insertion position of an unsigned header, removal/modification/extra value of every unsigned one, every rotation of the header groups: identical outcome; the same insertions on {} refused bases; (4) a thrice-repeated signed header among 12..100 header lines in 4 arrangements: accepted, refused once two signed values are swapped, unaffected by removing unsigned lines (each 8 times); (5) 8 Host spellings (ports 443/80/8443, upper case, trailing dot, IPv6, doubled port) signed literally on both carriers, each with 36 unsigned headers (well-known hop-by-hop / proxy / content headers and near-miss names of the headers the library consults) added, and every signature presented with every other Host value; (6) a form POST signing 14 entity / framing / payload-digest / list-valued headers (Cookie, Accept and Cache-Control with two values each) (Content-Length, Content-Type, Content-MD5, X-Amz-Content-Sha256, Transfer-Encoding, Expect, Range, ...) under {{default, S3, fold, S3+fold}} on both carriers: accepted as signed, and judged against the reference for each of 8 replacement values, an added second value and the removal of every one of them; (7) two or three signed headers whose names share a prefix and part ways at every ordered pair over 21 of the characters a header name may contain (all 15 punctuation marks, digits, letters) in 3 shapes (same length, one a prefix of the other, first character), names sent in lower or upper case, both carriers: correctly signed over the byte order of the lower-case names, accepted. states = distinct reference canonical requests",
             n_bases, if edit_stride == 1 { "" } else { "third" }, n_ref
         ),
         bounds: json!({"bases": n_bases, "edit_stride": edit_stride}),
